@@ -12,6 +12,7 @@ from vyper.codegen.function_definitions import (
 from vyper.codegen.ir_node import IRnode
 from vyper.compiler.settings import _is_debug_mode
 from vyper.exceptions import CompilerPanic
+from vyper.semantics.types import TupleT
 from vyper.semantics.types.module import ModuleT
 from vyper.utils import OrderedSet, method_id_int
 
@@ -505,6 +506,17 @@ def generate_ir_for_module(module_t: ModuleT) -> tuple[IRnode, IRnode]:
         # see py-evm extend_memory: after_size = ceil32(start_position + size)
         if immutables_len > 0:
             deploy_code.append(["iload", max(0, immutables_len - 32)])
+
+        # constructor arguments are appended to the initcode and read with
+        # codecopy, which zero-pads reads past the end of the code. ensure
+        # the (static part of the) argument tuple is actually present, the
+        # same way runtime entry points check calldatasize.
+        if len(init_func_t.positional_args) > 0:
+            ctor_args_t = TupleT(tuple(arg.typ for arg in init_func_t.positional_args))
+            ctor_args_min_size = ctor_args_t.abi_type.static_size()
+            deploy_code.append(
+                ["assert", ["ge", "codesize", ["add", ["symbol", "code_end"], ctor_args_min_size]]]
+            )
 
         deploy_code.append(init_func_ir)
         deploy_code.append(["deploy", init_mem_used, runtime, immutables_len])
